@@ -119,9 +119,15 @@ theorem se_site_exact_bits (t : Bits) :
         t = List.replicate 63 false ++ true :: (List.replicate 53 true ++ m ++ true :: r)) :=
   readSe_panic_bits t
 
-/-- **the RPU parser panics only while reading an exp-Golomb code with 64 leading zero bits (or an se(v) code
-that the `f64` detour maps to `i64::MIN`) at some position of the payload** — for EVERY input; in particular an
-input none of whose exp-Golomb fields has 64 leading zeros is parsed or rejected, never a panic -/
+/-- **a panic of the RPU parser implies that the payload contains, at some bit offset, the pattern on which an
+exp-Golomb read panics** (64 leading zero bits …, or the se(v) codes the `f64` detour maps to `i64::MIN`) — for
+EVERY input, with no hypothesis. This is a NECESSARY condition on the raw bits, not a statement about where the
+parser reads: the proof (`Proofs/PanicSites.lean`) does show that the panic is raised by `readUe`/`readSe` on the
+bits still to be read at that moment, but the statement only keeps "some suffix"; an accepted ordinary RPU can
+contain such a pattern at an offset where no exp-Golomb code is read (example below, bit 699). The exact
+characterisation lives one level down, at the reader (`ue_site_exact`, `se_site_exact`); that the Rust code has no
+*other* panic site than the ones the model carries (slicing, allocation sizes, `unreachable!`) is not a theorem:
+it rests on the correspondence runs of this check (dev profile, overflow checks on). -/
 theorem parse_panic_only_at_ue (data : Bytes) (h : parseRpu data = .panic) :
     ∃ t, t <:+ bytesToBits (data.take (data.length - trailingZeroes data)) ∧ UePanic t :=
   parseRpu_panic data h
@@ -163,7 +169,8 @@ theorem rpu_file_panic_only_at_ue (c : Nat) (file : Bytes) (h : RpuFile.parseRpu
   obtain ⟨b, t, h1, h2, h3⟩ := parseNalu_panic slice hp
   exact ⟨slice, b, t, hs, h1, h2, h3⟩
 
-/-- contrapositive form: an input with no site is parsed or rejected -/
+/-- contrapositive form: an input whose bits contain the pattern at NO offset is parsed or rejected. (Rarely
+applicable to real RPUs — ordinary DM payloads contain 64 zero bits — see the remark at `parse_panic_only_at_ue`.) -/
 theorem parse_no_panic_of_no_site (data : Bytes)
     (h : ∀ t, t <:+ bytesToBits (data.take (data.length - trailingZeroes data)) → ¬ UePanic t) :
     parseRpu data ≠ .panic := by
